@@ -16,6 +16,7 @@ import Driver.MtHist
 import Driver.BddChk
 import Driver.ParseChk
 import Driver.MetaChk
+import Driver.NfaStartChk
 import Driver.LtsUtilChk
 import Driver.GlueChk
 import Driver.CliArgsChk
@@ -545,6 +546,7 @@ def dispatch (kind : String) (args res : List String) : Except String (Findings 
   | "glue" => utilKind "symbol assignments / dictionaries / translators" (GlueChk.check args res)
   | "cliargs" => utilKind "command-line parsing and option handling" (CliArgsChk.check args res)
   | "ltsutil" => utilKind "helper classes of the simulation engine" (LtsUtilChk.check args res)
+  | "nfas" => NfaStartChk.check args res
   | "cliop" => checkCliOp args res
   | "apisweep" =>
     -- API sweep of C20: nothing functional is judged (a sanitizer report / crash never reaches this point); the tag is
